@@ -1199,3 +1199,853 @@ def translate_transform(path):
              'Require Import QV.C17.Model QV.C17.GenLib QV.C17.Gen_linspace_obj.', 'Import ListNotations.', '',
              TransformTranslator(tree, aliases).translate(), '']
     return '\n'.join(parts)
+
+
+# =====================================================================================================================
+# Round 4: the rest of the translator and the VM constructor.
+#
+#   DepKey.from_voltages                    (KeyTranslator)   -> gen_from_voltages          (while loop with the list length as fuel)
+#   LinSpaceHold/Repeat/Iter.dependencies   (DepsTranslator)  -> gen_dependencies           (Fixpoint over the node tree, one arm per class)
+#   _TranslationState.new_loop / get_dependency_state / _entry_state_unchanged_since / _add_repetition_node /
+#   _add_iteration_node / add_node          (TrTranslator, an extension of ObjTranslator)
+#   to_increment_commands, LinSpaceVM.__init__                 -> gen_to_increment_commands, gen_vm_init
+#
+# New in TrTranslator: methods that return a value (`res (record * T)`), pure methods (a single `return <expr>` -> a plain
+# function of the record), tuple targets, 3-tuples and `*args`, set / dict comprehensions over `.items()`, `dict(x)` (copy =
+# identity under value semantics), `l.pop(i)` / `l.pop()` / `l[-1] = v`, sets as lists compared with `set_eqb`, the open
+# recursion `self.add_node(node.body)` (parameter add_node_seq), mutation of a local command object (`label.count -= 1` ->
+# the local is rebuilt; refused while the object is known to sit in a list of self: python would mutate the list element).
+
+EQB.update({'depstate': 'depstate_eqb', ('set', ('opt', 'depstate')): 'set_eqb'})
+
+NODE_CLASSES = [
+    ('LinSpaceHold', [('bases', 'Tuple[float, ...]', ('list', 'Q')),
+                      ('factors', 'Tuple[Optional[Tuple[float, ...]], ...]', ('list', ('opt', ('list', 'Q')))),
+                      ('duration_base', 'TimeType', 'Q'),
+                      # Optional[Tuple[TimeType, ...]] by annotation, a mapping (SimpleExpression.offsets) or None in fact; only its
+                      # truth value is used: represented by a list
+                      ('duration_factors', 'Optional[Tuple[TimeType, ...]]', ('list', 'Q'))]),
+    ('LinSpaceArbitraryWaveform', [('waveform', 'Waveform', None), ('channels', 'Tuple[ChannelID, ...]', None)]),
+    ('LinSpaceRepeat', [('body', 'Tuple[LinSpaceNode, ...]', ('list', 'gnode')), ('count', 'int', 'Z')]),
+    ('LinSpaceIter', [('body', 'Tuple[LinSpaceNode, ...]', ('list', 'gnode')), ('length', 'int', 'Z')]),
+]
+GDEPS = ('dict', 'nat', ('set', ('list', 'Q')))
+
+
+def _gt4(t):
+    if isinstance(t, tuple) and t[0] == 'set':
+        return 'list %s' % _gtp4(t[1])
+    if isinstance(t, tuple) and t[0] == 'tuple':
+        return ' * '.join(_gtp4(x) for x in t[1])
+    if isinstance(t, tuple) and t[0] in ('list', 'opt', 'dict', 'dict2', 'pair'):
+        if t[0] == 'list':
+            return 'list %s' % _gtp4(t[1])
+        if t[0] == 'opt':
+            return 'option %s' % _gtp4(t[1])
+        if t[0] == 'dict':
+            return 'list (%s * %s)' % (_gtp4(t[1]), _gtp4(t[2]))
+        if t[0] == 'dict2':
+            return 'list ((%s * %s) * %s)' % (_gtp4(t[1]), _gtp4(t[2]), _gtp4(t[3]))
+        return '%s * %s' % (_gtp4(t[1]), _gtp4(t[2]))
+    return _gt(t)
+
+
+def _gtp4(t):
+    s = _gt4(t)
+    return s if isinstance(t, str) else '(%s)' % s
+
+
+def _class(tree, name):
+    cl = [n for n in tree.body if isinstance(n, ast.ClassDef) and n.name == name]
+    if len(cl) != 1:
+        raise Unsupported('class %s not found' % name)
+    return cl[0]
+
+
+def _method(cdef, name):
+    ms = [n for n in cdef.body if isinstance(n, ast.FunctionDef) and n.name == name]
+    if len(ms) != 1:
+        raise Unsupported('method %s.%s not found' % (cdef.name, name))
+    return ms[0]
+
+
+def _body(fdef):
+    return [s for s in fdef.body if not (isinstance(s, ast.Expr) and isinstance(s.value, ast.Constant) and isinstance(s.value.value, str))]
+
+
+def _is_dataclass(cdef):
+    return any((isinstance(d, ast.Name) and d.id == 'dataclass') or
+               (isinstance(d, ast.Call) and isinstance(d.func, ast.Name) and d.func.id == 'dataclass') for d in cdef.decorator_list)
+
+
+def node_inductive(tree):
+    rows = []
+    for cname, fields in NODE_CLASSES:
+        cl = _class(tree, cname)
+        if not _is_dataclass(cl) or [ast.unparse(b) for b in cl.bases] != ['LinSpaceNode']:
+            raise Unsupported('%s is not a dataclass derived from LinSpaceNode' % cname)
+        got = [(s.target.id, _ann(s.annotation)) for s in cl.body if isinstance(s, ast.AnnAssign) and isinstance(s.target, ast.Name)]
+        if got != [(f, a) for f, a, _ in fields]:
+            raise Unsupported('fields of %s are %s' % (cname, got))
+        rows.append(('| G%s %s' % (cname, ' '.join('(%s : %s)' % (f, _gt4(t)) for f, _, t in fields if t is not None))).rstrip())
+    return 'Inductive gnode :=\n%s.' % '\n'.join(rows)
+
+
+def _u(e):
+    return ast.unparse(e)
+
+
+class KeyTranslator:
+    """DepKey.from_voltages:  while <seq> and <seq>[-1] == 0: <seq> = <seq>[:-1]   then   return cls(tuple(int(round(E)) for x in <seq>))"""
+
+    def __init__(self, tree):
+        cl = _class(tree, 'DepKey')
+        fields = [(s.target.id, _ann(s.annotation)) for s in cl.body if isinstance(s, ast.AnnAssign)]
+        if fields != [('factors', 'Tuple[int, ...]')]:
+            raise Unsupported('DepKey fields %s' % fields)
+        self.m = _method(cl, 'from_voltages')
+        if [_u(d) for d in self.m.decorator_list] != ['classmethod']:
+            raise Unsupported('from_voltages is not a classmethod')
+        a = self.m.args
+        if [x.arg for x in a.args] != ['cls', 'voltages', 'resolution'] or a.vararg or a.kwarg or a.kwonlyargs or a.defaults:
+            raise Unsupported('from_voltages signature')
+        if _ann(a.args[1].annotation) != 'Sequence[float]' or _ann(a.args[2].annotation) != 'float':
+            raise Unsupported('from_voltages annotations')
+
+    def qexpr(self, e, names):
+        if isinstance(e, ast.Name) and e.id in names:
+            return e.id
+        if isinstance(e, ast.BinOp) and type(e.op) in (ast.Div, ast.Mult, ast.Add, ast.Sub):
+            return '(%s %s %s)%%Q' % (self.qexpr(e.left, names), {ast.Div: '/', ast.Mult: '*', ast.Add: '+', ast.Sub: '-'}[type(e.op)],
+                                     self.qexpr(e.right, names))
+        raise Unsupported('float expression ' + _u(e))
+
+    def translate(self):
+        body = _body(self.m)
+        if len(body) != 2 or not isinstance(body[0], ast.While) or not isinstance(body[1], ast.Return) or body[0].orelse:
+            raise Unsupported('from_voltages: expected a while loop and a return')
+        w, r = body
+        t = w.test
+        ok = (isinstance(t, ast.BoolOp) and isinstance(t.op, ast.And) and len(t.values) == 2 and isinstance(t.values[0], ast.Name)
+              and isinstance(t.values[1], ast.Compare) and len(t.values[1].ops) == 1)
+        if not ok:
+            raise Unsupported('while test ' + _u(t))
+        v = t.values[0].id
+        if v != 'voltages':
+            raise Unsupported('while variable')
+        cmp_ = t.values[1]
+        if _u(cmp_.left) != '%s[-1]' % v or not (isinstance(cmp_.comparators[0], ast.Constant) and type(cmp_.comparators[0].value) is int):
+            raise Unsupported('while test ' + _u(t))
+        c = '(Qeq_bool (last %s 0%%Q) (inject_Z (%d)))' % (v, cmp_.comparators[0].value)
+        if isinstance(cmp_.ops[0], ast.NotEq):
+            c = '(negb %s)' % c
+        elif not isinstance(cmp_.ops[0], ast.Eq):
+            raise Unsupported('while comparison')
+        if len(w.body) != 1 or _u(w.body[0]) != '%s = %s[:-1]' % (v, v):
+            raise Unsupported('while body ' + _u(w.body[0])[:60])
+        loop = ('(* `while %s`: every pass removes one element, so len(%s) passes suffice *)\n'
+                'Fixpoint gen_from_voltages_while1 (fuel : nat) (%s : list Q) {struct fuel} : list Q :=\nmatch fuel with\n| O => %s\n| S fuel\' =>\n'
+                'if ((negb (is_nil %s)) && %s) then\nlet %s := (removelast %s) in\ngen_from_voltages_while1 fuel\' %s\nelse\n%s\nend.'
+                % (_u(t), v, v, v, v, c, v, v, v, v))
+        rv = r.value
+        ok = (isinstance(rv, ast.Call) and _u(rv.func) == 'cls' and len(rv.args) == 1 and isinstance(rv.args[0], ast.Call)
+              and _u(rv.args[0].func) == 'tuple' and len(rv.args[0].args) == 1 and isinstance(rv.args[0].args[0], ast.GeneratorExp))
+        if not ok:
+            raise Unsupported('return ' + _u(rv)[:80])
+        g = rv.args[0].args[0]
+        if len(g.generators) != 1 or g.generators[0].ifs or not isinstance(g.generators[0].target, ast.Name) or _u(g.generators[0].iter) != v:
+            raise Unsupported('generator ' + _u(g)[:80])
+        x = g.generators[0].target.id
+        el = g.elt
+        if not (isinstance(el, ast.Call) and _u(el.func) == 'int' and len(el.args) == 1 and isinstance(el.args[0], ast.Call)
+                and _u(el.args[0].func) == 'round' and len(el.args[0].args) == 1 and not el.args[0].keywords):
+            raise Unsupported('element ' + _u(el))
+        e = self.qexpr(el.args[0].args[0], {x, 'resolution'})
+        main = ('Definition gen_from_voltages (%s : list Q) (resolution : Q) : key :=\nlet %s := gen_from_voltages_while1 (length %s) %s in\n'
+                '(map (fun %s => py_int_round %s) %s).' % (v, v, v, v, x, e, v))
+        return loop + '\n\n' + main
+
+
+def resolution_constant(tree):
+    """self.resolution: the field's default (DEFAULT_INCREMENT_RESOLUTION, a decimal literal read exactly); nothing stores into it"""
+    val = None
+    for n in tree.body:
+        if isinstance(n, ast.AnnAssign) and isinstance(n.target, ast.Name) and n.target.id == 'DEFAULT_INCREMENT_RESOLUTION':
+            if not (isinstance(n.value, ast.Constant) and isinstance(n.value.value, float)):
+                raise Unsupported('DEFAULT_INCREMENT_RESOLUTION is not a float literal')
+            val = n.value.value
+    if val is None:
+        raise Unsupported('DEFAULT_INCREMENT_RESOLUTION not found')
+    from fractions import Fraction
+    from decimal import Decimal
+    fr = Fraction(Decimal(repr(val)))
+    if float(fr) != val or fr <= 0:
+        raise Unsupported('resolution literal')
+    ts = _class(tree, '_TranslationState')
+    fld = [s for s in ts.body if isinstance(s, ast.AnnAssign) and isinstance(s.target, ast.Name) and s.target.id == 'resolution']
+    if len(fld) != 1 or _u(fld[0].value) != 'dataclasses.field(default_factory=lambda: DEFAULT_INCREMENT_RESOLUTION)':
+        raise Unsupported('default of _TranslationState.resolution')
+    for sub in ast.walk(tree):
+        if isinstance(sub, ast.Attribute) and sub.attr == 'resolution' and isinstance(sub.ctx, (ast.Store, ast.Del)):
+            raise Unsupported('a store into .resolution')
+    return 'Definition gen_resolution : Q := (%d # %d).' % (fr.numerator, fr.denominator)
+
+
+class DepsTranslator:
+    """dependencies() of the node classes -> one Fixpoint over gnode (dynamic dispatch = match on the constructor)."""
+
+    def __init__(self, tree):
+        self.tree = tree
+        base = _class(tree, 'LinSpaceNode')
+        m = _method(base, 'dependencies')
+        if [_u(s) for s in _body(m)] != ['raise NotImplementedError']:
+            raise Unsupported('LinSpaceNode.dependencies')
+        self.aux = []
+
+    def inner_stmts(self, stmts, env, again):
+        """body of `for idx, deps in node.dependencies().items()`; the accumulator `dependencies` is threaded"""
+        if not stmts:
+            return again
+        s, rest = stmts[0], stmts[1:]
+        if isinstance(s, ast.Assign) and len(s.targets) == 1 and isinstance(s.targets[0], ast.Name) and isinstance(s.value, ast.SetComp):
+            c = s.value
+            if len(c.generators) != 1 or c.generators[0].ifs or not isinstance(c.generators[0].target, ast.Name):
+                raise Unsupported('set comprehension ' + _u(c))
+            x, it = c.generators[0].target.id, _u(c.generators[0].iter)
+            if env.get(it) != 'qset' or _u(c.elt) != '%s[:-1]' % x:
+                raise Unsupported('set comprehension ' + _u(c))
+            n = s.targets[0].id
+            if n in env:
+                raise Unsupported('rebinding ' + n)
+            return 'let %s := (map (fun %s => removelast %s) %s) in\n%s' % (n, x, x, it, self.inner_stmts(rest, dict(env, **{n: 'qset'}), again))
+        if isinstance(s, ast.If) and isinstance(s.test, ast.Compare) and len(s.test.ops) == 1 and isinstance(s.test.ops[0], (ast.Eq, ast.NotEq)):
+            l, r = s.test.left, s.test.comparators[0]
+            if not (isinstance(l, ast.Name) and env.get(l.id) == 'qset' and _u(r) == '{()}'):
+                raise Unsupported('if ' + _u(s.test))
+            c = '(qset_eqb %s [[]])' % l.id
+            if isinstance(s.test.ops[0], ast.NotEq):
+                c = '(negb %s)' % c
+            return 'if %s then\n%s\nelse\n%s' % (c, self.inner_stmts(s.body + rest, env, again), self.inner_stmts(s.orelse + rest, env, again))
+        if isinstance(s, ast.Expr) and isinstance(s.value, ast.Call):
+            c = s.value
+            f = c.func
+            if isinstance(f, ast.Attribute) and f.attr == 'update' and len(c.args) == 1 and not c.keywords and isinstance(c.args[0], ast.Name) \
+                    and env.get(c.args[0].id) == 'qset' and isinstance(f.value, ast.Call) and _u(f.value.func) == 'dependencies.setdefault' \
+                    and len(f.value.args) == 2 and _u(f.value.args[1]) == 'set()' and isinstance(f.value.args[0], ast.Name) \
+                    and env.get(f.value.args[0].id) == 'nat':
+                return 'let dependencies := (dict_setdefault_update Nat.eqb %s %s dependencies) in\n%s' % (
+                    f.value.args[0].id, c.args[0].id, self.inner_stmts(rest, env, again))
+        raise Unsupported('statement ' + _u(s)[:80])
+
+    def loop_arm(self, cname):
+        m = _method(_class(self.tree, cname), 'dependencies')
+        if [x.arg for x in m.args.args] != ['self']:
+            raise Unsupported('signature')
+        body = _body(m)
+        if len(body) != 3 or _u(body[0]) != 'dependencies = {}' or _u(body[2]) != 'return dependencies' or not isinstance(body[1], ast.For):
+            raise Unsupported('%s.dependencies: expected `dependencies = {}`, a loop, `return dependencies`' % cname)
+        o = body[1]
+        if not (isinstance(o.target, ast.Name) and o.target.id == 'node' and _u(o.iter) == 'self.body' and not o.orelse
+                and len(o.body) == 1 and isinstance(o.body[0], ast.For)):
+            raise Unsupported('%s.dependencies: outer loop' % cname)
+        i = o.body[0]
+        if _u(i.target) != '(idx, deps)' or _u(i.iter) != 'node.dependencies().items()' or i.orelse:
+            raise Unsupported('%s.dependencies: inner loop' % cname)
+        lname = 'gen_%s_dependencies_loop2' % cname
+        again = "%s l' dependencies" % lname
+        inner = self.inner_stmts(i.body, {'idx': 'nat', 'deps': 'qset'}, again)
+        self.aux.append('Fixpoint %s (l : list (nat * list (list Q))) (dependencies : list (nat * list (list Q))) {struct l} '
+                        ': list (nat * list (list Q)) :=\nmatch l with\n| (idx, deps) :: l\' =>\n%s\n| [] => dependencies\nend.' % (lname, inner))
+        return ('let dependencies := (@nil (nat * list (list Q))) in\n'
+                '(fix loop1 (l : list gnode) (dependencies : list (nat * list (list Q))) {struct l} : res (list (nat * list (list Q))) :=\n'
+                'match l with\n| node :: l\' =>\nmatch gen_dependencies node with\n| Err e => Err e\n| Ok tmp =>\nloop1 l\' (%s tmp dependencies)\nend\n'
+                '| [] => Ok dependencies\nend) self_body dependencies' % lname)
+
+    def hold_arm(self):
+        m = _method(_class(self.tree, 'LinSpaceHold'), 'dependencies')
+        body = _body(m)
+        if len(body) != 1 or not isinstance(body[0], ast.Return) or not isinstance(body[0].value, ast.DictComp):
+            raise Unsupported('LinSpaceHold.dependencies')
+        c = body[0].value
+        g = c.generators
+        if len(g) != 1 or _u(g[0].target) != '(idx, factors)' or _u(g[0].iter) != 'enumerate(self.factors)' \
+                or [_u(x) for x in g[0].ifs] != ['factors'] or _u(c.key) != 'idx' or _u(c.value) != '{factors}':
+            raise Unsupported('LinSpaceHold.dependencies: ' + _u(c))
+        self.aux.append("(* {idx: {factors} for idx, factors in enumerate(self.factors) if factors}: None and () are falsy *)\n"
+                        "Fixpoint gen_LinSpaceHold_dependencies_comp (l : list (option (list Q))) (idx : nat) {struct l} : list (nat * list (list Q)) :=\n"
+                        "match l with\n| factors :: l' =>\nmatch factors with\n| Some factors =>\nif (negb (is_nil factors)) then\n"
+                        "(idx, [factors]) :: gen_LinSpaceHold_dependencies_comp l' (S idx)\nelse\ngen_LinSpaceHold_dependencies_comp l' (S idx)\n"
+                        "| None =>\ngen_LinSpaceHold_dependencies_comp l' (S idx)\nend\n| [] => []\nend.")
+        return 'Ok (gen_LinSpaceHold_dependencies_comp self_factors 0%nat)'
+
+    def translate(self):
+        arms = []
+        for cname, fields in NODE_CLASSES:
+            cl = _class(self.tree, cname)
+            binders = ' '.join('self_%s' % f for f, _, t in fields if t is not None)
+            has = [n for n in cl.body if isinstance(n, ast.FunctionDef) and n.name == 'dependencies']
+            if not has:
+                body = 'Err ENotImpl'             # inherited LinSpaceNode.dependencies
+            elif cname == 'LinSpaceHold':
+                body = self.hold_arm()
+            else:
+                body = self.loop_arm(cname)
+            arms.append('| G%s %s =>\n%s' % (cname, binders, body))
+        main = 'Fixpoint gen_dependencies (self : gnode) {struct self} : res (list (nat * list (list Q))) :=\nmatch self with\n%s\nend.' % '\n'.join(arms)
+        return '\n\n'.join(self.aux + [main])
+
+
+class TrTranslator(ObjTranslator):
+    """ObjTranslator + the constructs of new_loop / get_dependency_state / _entry_state_unchanged_since /
+    _add_repetition_node / _add_iteration_node (see the round-4 header above)."""
+
+    def __init__(self, tree, schema, rets, pure, rec_cls):
+        super().__init__(tree, schema)
+        self.rets, self.pure, self.rec_cls = rets, pure, rec_cls
+        self.nodes = {c: f for c, f in NODE_CLASSES}
+        self.cur_ret = None
+        self.in_lists = set()            # (local, attribute): the local object was appended to self.<attribute>
+        self.uses_add_node = False
+
+    # ---- types / binds
+    @staticmethod
+    def wrap(pre, body):
+        for look, err_, name in reversed(pre):
+            if err_ is None:
+                body = 'match %s with\n| Err e => Err e\n| Ok %s =>\n%s\nend' % (look, name, body)
+            else:
+                body = 'match %s with\n| None => Err %s\n| Some %s =>\n%s\nend' % (look, err_, name, body)
+        return body
+
+    def comp_binders(self, gens, env, pre):
+        """accepted generator clauses of a comprehension -> (list text, lambda pattern, env of the element expression, nested?)
+        returns a function body -> text given the combinators for the outer / inner level"""
+        if any(g.ifs or g.is_async for g in gens):
+            raise Unsupported('comprehension with a condition')
+
+        def items_of(it):
+            if isinstance(it, ast.Call) and isinstance(it.func, ast.Attribute) and it.func.attr == 'items' and not it.args and not it.keywords:
+                return it.func.value
+            return None
+        if len(gens) == 1:
+            g = gens[0]
+            d = items_of(g.iter)
+            if d is not None and isinstance(g.target, ast.Tuple) and len(g.target.elts) == 2 and all(isinstance(x, ast.Name) for x in g.target.elts):
+                l, tl = self.expr(d, env, pre)
+                a, b = (x.id for x in g.target.elts)
+                if not (isinstance(tl, tuple) and tl[0] == 'dict') or a in env or b in env or a == b:
+                    raise Unsupported('comprehension over %r' % (tl,))
+                return [(l, "'(%s, %s)" % (a, b))], dict(env, **{a: tl[1], b: tl[2]})
+            if isinstance(g.target, ast.Name):
+                l, tl = self.expr(g.iter, env, pre)
+                if not (isinstance(tl, tuple) and tl[0] in ('list', 'set')) or g.target.id in env:
+                    raise Unsupported('comprehension over %r' % (tl,))
+                return [(l, g.target.id)], dict(env, **{g.target.id: tl[1]})
+            raise Unsupported('comprehension target')
+        if len(gens) == 2:
+            g1, g2 = gens
+            d = items_of(g1.iter)
+            if d is None or not (isinstance(g1.target, ast.Tuple) and len(g1.target.elts) == 2 and all(isinstance(x, ast.Name) for x in g1.target.elts)):
+                raise Unsupported('first generator')
+            l, tl = self.expr(d, env, pre)
+            a, b = (x.id for x in g1.target.elts)
+            if a in env or b in env or a == b:
+                raise Unsupported('generator variable shadows')
+            d2 = items_of(g2.iter)
+            if isinstance(tl, tuple) and tl[0] == 'dict2' and d2 is not None and isinstance(d2, ast.Name) and d2.id == b \
+                    and isinstance(g2.target, ast.Tuple) and len(g2.target.elts) == 2 and all(isinstance(x, ast.Name) for x in g2.target.elts):
+                c, e = (x.id for x in g2.target.elts)
+                if len({a, b, c, e}) != 4 or c in env or e in env:
+                    raise Unsupported('generator variable shadows')
+                # dict of dicts kept flat: one element per (outer key, inner key)
+                return [(l, "'((%s, %s), %s)" % (a, c, e))], dict(env, **{a: tl[1], c: tl[2], e: tl[3]})
+            if isinstance(tl, tuple) and tl[0] == 'dict' and isinstance(tl[2], tuple) and tl[2][0] in ('list', 'set') \
+                    and isinstance(g2.iter, ast.Name) and g2.iter.id == b and isinstance(g2.target, ast.Name):
+                c = g2.target.id
+                if c in env or c in (a, b):
+                    raise Unsupported('generator variable shadows')
+                return [(l, "'(%s, %s)" % (a, b)), (b, c)], dict(env, **{a: tl[1], b: tl[2], c: tl[2][1]})
+        raise Unsupported('comprehension generators')
+
+    # ---- expressions
+    def expr(self, e, env, pre, want=None):
+        if self.is_self_attr(e) and e.attr == 'resolution' and self.ftypes.get('resolution', 0) is None:
+            return 'gen_resolution', 'Q'
+        if isinstance(e, ast.Tuple) and len(e.elts) == 3:
+            parts = [self.expr(x, env, pre) for x in e.elts]
+            return '(%s)' % ', '.join(p for p, _ in parts), ('tuple', tuple(t for _, t in parts))
+        if isinstance(e, ast.SetComp):
+            levels, env2 = self.comp_binders(e.generators, env, pre)
+            inner = []
+            x, tx = self.expr(e.elt, env2, inner)
+            if inner:
+                raise Unsupported('failing read inside a comprehension')
+            if len(levels) == 1:
+                return '(map (fun %s => %s) %s)' % (levels[0][1], x, levels[0][0]), ('set', tx)
+            return '(flat_map (fun %s => (map (fun %s => %s) %s)) %s)' % (levels[0][1], levels[1][1], x, levels[1][0], levels[0][0]), ('set', tx)
+        if isinstance(e, ast.DictComp):
+            # {a: dict(b) for a, b in self.f.items()} on a dict of dicts: a copy (identity under value semantics)
+            g = e.generators
+            if len(g) == 1 and not g[0].ifs and isinstance(g[0].target, ast.Tuple) and len(g[0].target.elts) == 2 \
+                    and all(isinstance(x, ast.Name) for x in g[0].target.elts):
+                a, b = (x.id for x in g[0].target.elts)
+                it = g[0].iter
+                if _u(e.key) == a and _u(e.value) == 'dict(%s)' % b and isinstance(it, ast.Call) and isinstance(it.func, ast.Attribute) \
+                        and it.func.attr == 'items' and not it.args and self.is_self_attr(it.func.value) and a != b and a not in env and b not in env:
+                    d, td = self.fget(it.func.value.attr)
+                    if isinstance(td, tuple) and td[0] == 'dict2':
+                        return d, td
+            raise Unsupported('dict comprehension ' + _u(e)[:60])
+        if isinstance(e, ast.Name) and e.id in env and isinstance(env[e.id], tuple) and env[e.id][0] == 'rec':
+            cname = self.rec_cls.get(e.id)
+            if cname is None:
+                raise Unsupported('record %s used as a value' % e.id)
+            return '(G%s %s)' % (cname, ' '.join('%s_%s' % (e.id, f) for f, _, t in self.nodes[cname] if t is not None)), 'gnode'
+        return super().expr(e, env, pre, want)
+
+    def call(self, e, env, pre):
+        f = e.func
+        # dict(x): a copy
+        if isinstance(f, ast.Name) and f.id == 'dict' and len(e.args) == 1 and not e.keywords:
+            x, tx = self.expr(e.args[0], env, pre)
+            if not (isinstance(tx, tuple) and tx[0] in ('dict', 'dict2')):
+                raise Unsupported('dict() of %r' % (tx,))
+            return x, tx
+        # DepKey.from_voltages(X, self.resolution): the translated classmethod
+        if isinstance(f, ast.Attribute) and isinstance(f.value, ast.Name) and f.value.id == 'DepKey' and f.attr == 'from_voltages':
+            a = self.kwargs(e, ['voltages', 'resolution'])
+            x, tx = self.expr(a['voltages'], env, pre)
+            r, tr_ = self.expr(a['resolution'], env, pre)
+            if tx != ('list', 'Q') or tr_ != 'Q':
+                raise Unsupported('from_voltages of %r' % (tx,))
+            return '(gen_from_voltages %s %s)' % (x, r), 'key'
+        # dd.get(a, {}).get(b, None) on a dict of dicts
+        if isinstance(f, ast.Attribute) and f.attr == 'get' and len(e.args) == 2 and not e.keywords \
+                and isinstance(e.args[1], ast.Constant) and e.args[1].value is None:
+            g = f.value
+            if isinstance(g, ast.Call) and isinstance(g.func, ast.Attribute) and g.func.attr == 'get' and self.is_self_attr(g.func.value) \
+                    and len(g.args) == 2 and not g.keywords and isinstance(g.args[1], ast.Dict) and not g.args[1].keys:
+                d, td = self.fget(g.func.value.attr)
+                if not (isinstance(td, tuple) and td[0] == 'dict2'):
+                    raise Unsupported('.get(.., {}) on %r' % (td,))
+                a, ta = self.expr(g.args[0], env, pre, td[1])
+                b, tb = self.expr(e.args[0], env, pre, td[2])
+                if (ta, tb) != (td[1], td[2]):
+                    raise Unsupported('dict2 key types')
+                return '(alookup %s (%s, %s) %s)' % (_eqb(('pair', td[1], td[2])), a, b, d), ('opt', td[3])
+        # x.dependencies() on a node
+        if isinstance(f, ast.Attribute) and f.attr == 'dependencies' and not e.args and not e.keywords:
+            x, tx = self.expr(f.value, env, pre)
+            if tx != 'gnode':
+                raise Unsupported('dependencies() of %r' % (tx,))
+            n = self.fresh()
+            pre.append(('gen_dependencies %s' % x, None, n))
+            return n, GDEPS
+        # pure methods of self
+        if self.is_self_attr(f) and f.attr in self.pure:
+            params, rt = self.pure[f.attr]
+            if len(e.args) == 1 and isinstance(e.args[0], ast.Starred) and not e.keywords:
+                s = e.args[0].value
+                if not (isinstance(s, ast.Name) and isinstance(env.get(s.id), tuple) and env[s.id][0] == 'tuple' and len(env[s.id][1]) == 3):
+                    raise Unsupported('*argument')
+                if tuple(t for _, t in params) != env[s.id][1]:
+                    raise Unsupported('*argument types %r' % (env[s.id][1],))
+                args = ['(fst (fst %s))' % s.id, '(snd (fst %s))' % s.id, '(snd %s)' % s.id]
+            else:
+                a = self.kwargs(e, [p for p, _ in params])
+                args = []
+                for p, t in params:
+                    x, tx = self.expr(a[p], env, pre, t if isinstance(t, str) else None)
+                    if tx != t:
+                        raise Unsupported('argument %s : %r gets %r' % (p, t, tx))
+                    args.append(x)
+            return '(gen_%s st %s)' % (f.attr.lstrip('_'), ' '.join(args)), rt
+        # all(c for <generators>) with tuple targets / two generators
+        if isinstance(f, ast.Name) and f.id == 'all' and len(e.args) == 1 and isinstance(e.args[0], ast.GeneratorExp):
+            g = e.args[0]
+            simple = len(g.generators) == 1 and isinstance(g.generators[0].target, ast.Name)
+            if not simple:
+                levels, env2 = self.comp_binders(g.generators, env, pre)
+                inner = []
+                c = self.cond(g.elt, env2, inner)
+                if inner:
+                    raise Unsupported('failing read inside a generator')
+                if len(levels) == 1:
+                    return '(forallb (fun %s => %s) %s)' % (levels[0][1], c, levels[0][0]), 'bool'
+                return '(forallb (fun %s => (forallb (fun %s => %s) %s)) %s)' % (levels[0][1], levels[1][1], c, levels[1][0], levels[0][0]), 'bool'
+        # a command whose fields are all opaque (Play)
+        if isinstance(f, ast.Name) and f.id in self.cmds and all(t is None for _, _, t in self.cmds[f.id]):
+            self.kwargs(e, [n for n, _, _ in self.cmds[f.id]])
+            return '%s%s' % (self.cp, f.id), self.inductive
+        return super().call(e, env, pre)
+
+    # ---- statements
+    def block(self, stmts, env, k):
+        if stmts and isinstance(stmts[0], ast.Return) and stmts[0].value is not None:
+            if self.cur_ret is None:
+                raise Unsupported('return with a value')
+            pre = []
+            v, tv = self.expr(stmts[0].value, env, pre)
+            if tv != self.cur_ret:
+                raise Unsupported('return type %r, declared %r' % (tv, self.cur_ret))
+            return self.wrap(pre, 'Ok (st, %s)' % v)
+        if stmts and isinstance(stmts[0], ast.AugAssign) and isinstance(stmts[0].target, ast.Attribute) \
+                and isinstance(stmts[0].target.value, ast.Name) and stmts[0].target.value.id in env \
+                and env[stmts[0].target.value.id] in (self.inductive, ) + tuple(('narrow', c) for c in self.cmds):
+            return self.mutate_local(stmts[0], stmts[1:], env, k)
+        return super().block(stmts, env, k)
+
+    def mutate_local(self, s, rest, env, k):
+        """x.f op= e on a local command object: python mutates the object; under value semantics the local is rebuilt.  Refused while
+        the object is known to be an element of a list of self (the element would change as well)."""
+        x, fld = s.target.value.id, s.target.attr
+        if any(n == x for n, _ in self.in_lists):
+            raise Unsupported('mutation of %s while it is an element of self.%s' % (x, [a for n, a in self.in_lists if n == x][0]))
+        op = {ast.Add: '+', ast.Sub: '-'}.get(type(s.op))
+        if op is None:
+            raise Unsupported('augmented operator')
+        cands = [c for c, fs_ in self.cmds.items() if any(f == fld and t is not None for f, _, t in fs_)]
+        t = env[x]
+        if isinstance(t, tuple):
+            cands = [c for c in cands if c == t[1]]
+        if len(cands) != 1:
+            raise Unsupported('field %s is not the field of exactly one command class' % fld)
+        cname = cands[0]
+        ft = [ft_ for f, _, ft_ in self.cmds[cname] if f == fld][0]
+        if ft not in ('Z', 'Q'):
+            raise Unsupported('mutation of a %r field' % (ft,))
+        env2 = dict(env, **{x: ('narrow', cname)})
+        pre = []
+        v, tv = self.expr(s.value, env2, pre, ft)
+        if tv != ft:
+            raise Unsupported('mutation value type')
+        binders = ['%s_%s' % (x, f) for f, _, t_ in self.cmds[cname] if t_ is not None]
+        body = 'let %s_%s := (%s_%s %s %s)%%%s in\nlet %s := (%s%s %s) in\n%s' % (
+            x, fld, x, fld, op, v, ft, x, self.cp, cname, ' '.join(binders), self.block(rest, env2, k))
+        body = self.wrap(pre, body)
+        if isinstance(t, tuple):
+            return body
+        # attribute access on an object of another class: AttributeError
+        return 'match %s with\n| %s%s %s =>\n%s\n| _ => Err EAttr\nend' % (x, self.cp, cname, ' '.join(binders), body)
+
+    def assign(self, target, value, env, nxt, rest_stmts=()):
+        # a, b = self.m(args)   (m returns a pair)
+        if isinstance(target, ast.Tuple) and isinstance(value, ast.Call) and self.is_self_attr(value.func) and value.func.attr in self.rets:
+            rt = self.rets[value.func.attr]
+            if not (isinstance(rt, tuple) and rt[0] == 'pair' and len(target.elts) == 2 and all(isinstance(x, ast.Name) for x in target.elts)):
+                raise Unsupported('tuple target')
+            a, b = (x.id for x in target.elts)
+            if a in env or b in env or a == b or 'st' in (a, b):
+                raise Unsupported('tuple target rebinds a local')
+            pre = []
+            args = self.method_args(value, env, pre)
+            return self.wrap(pre, 'match gen_%s st %s with\n| Err e => Err e\n| Ok (st, (%s, %s)) =>\n%s\nend' % (
+                value.func.attr.lstrip('_'), ' '.join(args), a, b, nxt(dict(env, **{a: rt[1], b: rt[2]}))))
+        # self.f[-1] = v
+        if isinstance(target, ast.Subscript) and self.is_self_attr(target.value) and _u(target.slice) == '-1':
+            cont, t = self.fget(target.value.attr)
+            if not (isinstance(t, tuple) and t[0] == 'list'):
+                raise Unsupported('[-1] store into %r' % (t,))
+            pre = []
+            v, tv = self.expr(value, env, pre, t[1] if isinstance(t[1], str) else None)
+            if tv != t[1]:
+                raise Unsupported('list element type')
+            n = self.fresh('l')
+            return self.wrap(pre, 'match set_last %s %s with\n| None => Err EIndex\n| Some %s =>\nlet st := %s in\n%s\nend'
+                             % (v, cont, n, self.fupd(target.value.attr, n), nxt(env)))
+        if isinstance(target, ast.Name) and target.id in env:
+            raise Unsupported('local %s assigned twice' % target.id)
+        return super().assign(target, value, env, nxt, rest_stmts)
+
+    def method_args(self, c, env, pre):
+        params = dict(self.s.methods)[c.func.attr]
+        a = self.kwargs(c, [p for p, _ in params])
+        args = []
+        for p, t in params:
+            if isinstance(t, tuple) and t[0] == 'rec':
+                raise Unsupported('call with a record argument')
+            x, tx = self.expr(a[p], env, pre, t if isinstance(t, str) else None)
+            if tx != t:
+                raise Unsupported('argument %s : %r gets %r' % (p, t, tx))
+            args.append(x)
+        return args
+
+    def call_stmt(self, c, env, nxt):
+        f = c.func
+        pre = []
+        if isinstance(f, ast.Attribute) and f.attr == 'pop' and self.is_self_attr(f.value) and not c.keywords and len(c.args) <= 1:
+            cont, t = self.fget(f.value.attr)
+            if not (isinstance(t, tuple) and t[0] == 'list'):
+                raise Unsupported('pop on %r' % (t,))
+            n = self.fresh('l')
+            if c.args:
+                i, ti = self.expr(c.args[0], env, pre, 'nat')
+                if ti != 'nat':
+                    raise Unsupported('pop index type')
+                look = 'remove_nth %s %s' % (i, cont)
+            else:
+                look = 'pop_last %s' % cont
+            # the popped element may be any local that was appended to this list: the marks are dropped only for this attribute
+            self.in_lists = {(x, a) for x, a in self.in_lists if a != f.value.attr}
+            return self.wrap(pre, 'match %s with\n| None => Err EIndex\n| Some %s =>\nlet st := %s in\n%s\nend'
+                             % (look, n, self.fupd(f.value.attr, n), nxt(env)))
+        if self.is_self_attr(f) and f.attr == 'add_node':
+            # the recursion of add_node through a node's body: open recursion
+            if len(c.args) != 1 or c.keywords:
+                raise Unsupported('add_node arguments')
+            x, tx = self.expr(c.args[0], env, pre)
+            if tx != ('list', 'gnode'):
+                raise Unsupported('self.add_node on %r (only a node body)' % (tx,))
+            self.uses_add_node = True
+            return self.wrap(pre, 'match add_node_seq %s st with\n| Err e => Err e\n| Ok st =>\n%s\nend' % (x, nxt(env)))
+        if isinstance(f, ast.Attribute) and f.attr == 'append' and self.is_self_attr(f.value) and len(c.args) == 1 \
+                and isinstance(c.args[0], ast.Name):
+            saved = set(self.in_lists)
+            self.in_lists = saved | {(c.args[0].id, f.value.attr)}
+            return super().call_stmt(c, env, nxt)
+        return super().call_stmt(c, env, nxt)
+
+    def if_stmt(self, s, env, nxt):
+        # the marks of appended locals are flow sensitive: both branches start from the marks before the `if`
+        saved = set(self.in_lists)
+        t = s.test
+        pre = []
+        special = (isinstance(t, ast.Call) and isinstance(t.func, ast.Name) and t.func.id == 'isinstance') or \
+                  (isinstance(t, ast.Compare) and len(t.ops) == 1 and isinstance(t.ops[0], ast.Is))
+        if special:
+            return super().if_stmt(s, env, nxt)
+        c = self.cond(t, env, pre)
+        self.in_lists = set(saved)
+        yes = self.block(s.body, env, nxt)
+        self.in_lists = set(saved)
+        no = self.block(s.orelse, env, nxt)
+        self.in_lists = saved
+        return self.wrap(pre, 'if %s then\n%s\nelse\n%s' % (c, yes, no))
+
+    def method_text(self, name, params):
+        m = _method(self.cdef, name)
+        a = m.args
+        if m.decorator_list or a.vararg or a.kwarg or a.kwonlyargs or a.defaults or a.posonlyargs:
+            raise Unsupported('method signature of ' + name)
+        if [x.arg for x in a.args] != ['self'] + [p for p, _ in params]:
+            raise Unsupported('parameters of %s are %s' % (name, [x.arg for x in a.args]))
+        for x, (p, t) in zip(a.args[1:], params):
+            if isinstance(t, tuple) and t[0] == 'rec' and _ann(x.annotation) != self.rec_cls.get(p):
+                raise Unsupported('%s: parameter %s is annotated %s' % (name, p, _ann(x.annotation)))
+        self.setdefault_seen = set()
+        self.cur_method, self.nloops, self.aux, self.loop_next = name, 0, [], []
+        self.in_lists, self.uses_add_node = set(), False
+        env = {p: t for p, t in params}
+        flat = []
+        for p, t in params:
+            if isinstance(t, tuple) and t[0] == 'rec':
+                flat.extend(('%s_%s' % (p, f), ft) for f, ft in t[1].items())
+            else:
+                flat.append((p, t))
+        ptxt = ' '.join('(%s : %s)' % (p, _gt4(t)) for p, t in flat)
+        gname = 'gen_%s' % name.lstrip('_')
+        if name in self.pure:
+            body = _body(m)
+            if len(body) != 1 or not isinstance(body[0], ast.Return) or body[0].value is None:
+                raise Unsupported('%s is not a single return' % name)
+            pre = []
+            v, tv = self.expr(body[0].value, env, pre)
+            if pre:
+                raise Unsupported('%s: failing read in a pure method' % name)
+            if tv != self.pure[name][1]:
+                raise Unsupported('%s returns %r' % (name, tv))
+            return 'Definition %s (st : %s) %s : %s :=\n%s.' % (gname, self.s.record, ptxt, _gt4(tv), v)
+        self.cur_ret = self.rets.get(name)
+        if self.cur_ret is None:
+            body = self.block(m.body, env, lambda env2: 'Ok st')
+            rtxt = 'res %s' % self.s.record
+        else:
+            def fall(env2):
+                raise Unsupported('%s may end without a return' % name)
+            body = self.block(m.body, env, fall)
+            rtxt = 'res (%s * (%s))' % (self.s.record, _gt4(self.cur_ret))
+        self.cur_ret = None
+        rec = '(add_node_seq : list gnode -> %s -> res %s) ' % (self.s.record, self.s.record) if self.uses_add_node else ''
+        self.open_rec[name] = self.uses_add_node
+        return '\n\n'.join(self.aux + ['Definition %s %s(st : %s) %s : %s :=\n%s.' % (gname, rec, self.s.record, ptxt, rtxt, body)])
+
+    # ---- add_node: the isinstance chain over the node classes; the Sequence arm is the loop over a body
+    def add_node_text(self):
+        m = _method(self.cdef, 'add_node')
+        if [x.arg for x in m.args.args] != ['self', 'node'] or m.decorator_list:
+            raise Unsupported('add_node signature')
+        body = _body(m)
+        if len(body) != 1 or not isinstance(body[0], ast.If):
+            raise Unsupported('add_node: expected one if/elif chain')
+        arms, seq_seen, s = [], False, body[0]
+        seen = []
+        while True:
+            t = s.test
+            if not (isinstance(t, ast.Call) and _u(t.func) == 'isinstance' and len(t.args) == 2 and _u(t.args[0]) == 'node'
+                    and isinstance(t.args[1], ast.Name)):
+                raise Unsupported('add_node test ' + _u(t))
+            cname = t.args[1].id
+            if cname == 'Sequence':
+                if seen or [_u(x) for x in s.body] != ['for lin_node in node:\n    self.add_node(lin_node)']:
+                    raise Unsupported('add_node: Sequence arm')
+                seq_seen = True
+            elif cname in self.nodes and cname not in seen:
+                seen.append(cname)
+                binders = ' '.join('node_%s' % f for f, _, ft in self.nodes[cname] if ft is not None)
+                if len(s.body) == 1 and isinstance(s.body[0], ast.Expr) and isinstance(s.body[0].value, ast.Call) \
+                        and self.is_self_attr(s.body[0].value.func) and [_u(x) for x in s.body[0].value.args] == ['node'] \
+                        and not s.body[0].value.keywords and s.body[0].value.func.attr in dict(self.s.methods):
+                    mname = s.body[0].value.func.attr
+                    params = dict(self.s.methods)[mname]
+                    if len(params) != 1 or self.rec_for.get(mname) != cname:
+                        raise Unsupported('add_node: %s does not take a %s' % (mname, cname))
+                    txt = 'gen_%s %sst %s' % (mname.lstrip('_'), 'add_node_seq ' if self.open_rec.get(mname) else '', binders)
+                else:
+                    self.cur_method, self.nloops, self.aux, self.loop_next, self.cur_ret = 'add_node', 0, [], [], None
+                    self.in_lists = set()
+                    self.rec_cls = dict(self.rec_cls, node=cname)
+                    env = {'node': ('rec', {f: ft for f, _, ft in self.nodes[cname] if ft is not None})}
+                    txt = self.block(s.body, env, lambda env2: 'Ok st')
+                    if self.aux:
+                        raise Unsupported('loop in an add_node arm')
+                arms.append('| G%s %s =>\n%s' % (cname, binders, txt))
+            else:
+                raise Unsupported('add_node: class ' + cname)
+            if len(s.orelse) == 1 and isinstance(s.orelse[0], ast.If):
+                s = s.orelse[0]
+                continue
+            if len(s.orelse) != 1 or not isinstance(s.orelse[0], ast.Raise) or not _u(s.orelse[0]).startswith('raise TypeError('):
+                raise Unsupported('add_node: final else')
+            break
+        if not seq_seen or sorted(seen) != sorted(self.nodes):
+            raise Unsupported('add_node: arms %s' % seen)
+        seq = ('fix add_node_seq (l : list gnode) (st : %s) {struct l} : res %s :=\nmatch l with\n| lin_node :: l\' =>\n'
+               'match gen_add_node lin_node st with\n| Err e => Err e\n| Ok st => add_node_seq l\' st\nend\n| [] => Ok st\nend' % (self.s.record, self.s.record))
+        main = ('(* add_node(node) for a node; the `isinstance(node, Sequence)` arm (for lin_node in node: self.add_node(lin_node)) is add_node_seq *)\n'
+                'Fixpoint gen_add_node (node : gnode) (st : %s) {struct node} : res %s :=\nlet add_node_seq := (%s) in\nmatch node with\n%s\nend.'
+                % (self.s.record, self.s.record, seq, '\n'.join(arms)))
+        return main + '\n\nDefinition gen_add_node_seq : list gnode -> %s -> res %s :=\n%s.' % (self.s.record, self.s.record, seq)
+
+
+def _rec(cname):
+    return ('rec', {f: t for f, _, t in dict(NODE_CLASSES)[cname] if t is not None})
+
+
+TS4_SCHEMA = ObjSchema(
+    '_TranslationState', 'gts', 'mkGts', 'gts_', TS_SCHEMA.fields,
+    [('new_loop', [('count', 'Z')]),
+     ('get_dependency_state', [('dependencies', GDEPS)]),
+     ('_entry_state_unchanged_since', [('active_dep', ('dict', 'nat', 'key')), ('plain_voltage', ('dict', 'nat', 'Q')),
+                                       ('dep_states', ('dict2', 'nat', 'key', 'depstate'))]),
+     ('_add_repetition_node', [('node', _rec('LinSpaceRepeat'))]),
+     ('_add_iteration_node', [('node', _rec('LinSpaceIter'))]),
+     ('_add_hold_node', [('node', _rec('LinSpaceHold'))])],
+    CMD_CLASSES)
+
+
+def translation_state_default(tree):
+    cl = _class(tree, '_TranslationState')
+    vals = []
+    for f, t in TS_SCHEMA.fields:
+        if t is None:
+            continue
+        fld = [s for s in cl.body if isinstance(s, ast.AnnAssign) and isinstance(s.target, ast.Name) and s.target.id == f]
+        if len(fld) != 1 or fld[0].value is None:
+            raise Unsupported('default of %s' % f)
+        d = _u(fld[0].value)
+        if d == 'dataclasses.field(default=0)' and t == 'Z':
+            vals.append('(0)%Z')
+        elif d in ('dataclasses.field(default_factory=list)', 'dataclasses.field(default_factory=dict)') and isinstance(t, tuple):
+            vals.append('[]')
+        else:
+            raise Unsupported('default of %s: %s' % (f, d))
+    return 'Definition gen_translation_state_default : gts := (mkGts %s).' % ' '.join(vals)
+
+
+def to_increment_commands_text(tree):
+    fs_ = [n for n in tree.body if isinstance(n, ast.FunctionDef) and n.name == 'to_increment_commands']
+    if len(fs_) != 1 or [x.arg for x in fs_[0].args.args] != ['linspace_nodes']:
+        raise Unsupported('to_increment_commands')
+    if [_u(s) for s in _body(fs_[0])] != ['state = _TranslationState()', 'state.add_node(linspace_nodes)', 'return state.commands']:
+        raise Unsupported('to_increment_commands body')
+    if _ann(fs_[0].args.args[0].annotation) != 'Sequence[LinSpaceNode]':
+        raise Unsupported('to_increment_commands annotation')
+    return ('Definition gen_to_increment_commands (linspace_nodes : list gnode) : res (list gcmd) :=\nlet state := gen_translation_state_default in\n'
+            'match gen_add_node_seq linspace_nodes state with\n| Err e => Err e\n| Ok state =>\nOk (gts_commands state)\nend.')
+
+
+def vm_init_text(tree):
+    """LinSpaceVM.__init__.  `self.f = None` is represented by the empty value of the field's type: accepted only for the attributes
+    that set_commands assigns, unconditionally and before reading anything, in its first statements."""
+    cl = _class(tree, 'LinSpaceVM')
+    m = _method(cl, '__init__')
+    if [x.arg for x in m.args.args] != ['self', 'channels'] or _ann(m.args.args[1].annotation) != 'int':
+        raise Unsupported('LinSpaceVM.__init__ signature')
+    sc = _body(_method(cl, 'set_commands'))
+    early = []
+    for s in sc:
+        if isinstance(s, ast.Assign) and len(s.targets) == 1 and isinstance(s.targets[0], ast.Attribute) and _u(s.targets[0].value) == 'self' \
+                and not any(isinstance(x, ast.Name) and x.id == 'self' for x in ast.walk(s.value)):
+            early.append(s.targets[0].attr)
+        else:
+            break
+    ftypes = dict(VM_SCHEMA.fields)
+    vals = {}
+    for s in _body(m):
+        if isinstance(s, ast.AnnAssign) and s.value is not None:
+            tgt, val = s.target, s.value
+        elif isinstance(s, ast.Assign) and len(s.targets) == 1:
+            tgt, val = s.targets[0], s.value
+        else:
+            raise Unsupported('__init__ statement ' + _u(s)[:60])
+        if not (isinstance(tgt, ast.Attribute) and _u(tgt.value) == 'self') or tgt.attr in vals or tgt.attr not in ftypes:
+            raise Unsupported('__init__ target ' + _u(tgt))
+        f, t, v = tgt.attr, ftypes[tgt.attr], _u(val)
+        if v == '[np.nan] * channels' and t == ('list', ('opt', 'Q')):
+            vals[f] = '(repeat None channels)'
+        elif v == 'TimeType(0)' and t == 'Q':
+            vals[f] = '(inject_Z (0))'
+        elif v == 'tuple(({} for _ in range(channels)))' and t == ('list', ('dict', 'key', 'Q')):
+            vals[f] = '(repeat [] channels)'
+        elif v == '[]' and isinstance(t, tuple) and t[0] == 'list':
+            vals[f] = '[]'
+        elif v == 'None' and f in early:
+            vals[f] = '0%nat' if t == 'nat' else '[]'
+        else:
+            raise Unsupported('__init__: self.%s = %s' % (f, v))
+    if sorted(vals) != sorted(ftypes):
+        raise Unsupported('__init__ assigns %s' % sorted(vals))
+    return ('(* the attributes set to None (%s) are assigned by set_commands before it reads anything *)\n'
+            'Definition gen_vm_init (channels : nat) : gvm :=\n(mkGvm %s).' % (', '.join(f for f in ftypes if f in early and _u_none(m, f)),
+                                                                             ' '.join(vals[f] for f, _ in VM_SCHEMA.fields)))
+
+
+def _u_none(m, f):
+    return any(isinstance(s, ast.Assign) and _u(s.targets[0]) == 'self.' + f and _u(s.value) == 'None' for s in m.body)
+
+
+def translate_translator(path):
+    with open(path) as fh:
+        tree = ast.parse(fh.read())
+    pure = {'get_dependency_state': ([('dependencies', GDEPS)], ('set', ('opt', 'depstate'))),
+            '_entry_state_unchanged_since': (TS4_SCHEMA.methods[2][1], 'bool')}
+    rets = {'new_loop': ('pair', 'gcmd', 'gcmd')}
+    tr = TrTranslator(tree, TS4_SCHEMA, rets, pure, {'node': None})
+    tr.open_rec, tr.rec_for = {}, {'_add_repetition_node': 'LinSpaceRepeat', '_add_iteration_node': 'LinSpaceIter', '_add_hold_node': 'LinSpaceHold'}
+    tr.check_cmd_classes()
+    texts = []
+    for name, params in TS4_SCHEMA.methods:
+        if name == '_add_hold_node':
+            tr.open_rec[name] = False          # translated in Gen_linspace_obj.v
+            continue
+        tr.rec_cls = {'node': tr.rec_for.get(name)}
+        texts.append(tr.method_text(name, params))
+    texts.append(tr.add_node_text())
+    parts = ['(* GENERATED by /verif/translate/py2gallina_c17.py (KeyTranslator, DepsTranslator, TrTranslator) from %s: the node dataclasses, '
+             'DepKey.from_voltages, dependencies(), _TranslationState.new_loop/get_dependency_state/_entry_state_unchanged_since/'
+             '_add_repetition_node/_add_iteration_node/add_node, to_increment_commands, LinSpaceVM.__init__ -- do not edit *)' % path,
+             'From Coq Require Import ZArith QArith List Bool.',
+             'Require Import QV.C17.Model QV.C17.GenLib QV.C17.Gen_linspace QV.C17.Gen_linspace_obj.', 'Import ListNotations.', '',
+             node_inductive(tree), resolution_constant(tree), KeyTranslator(tree).translate(), DepsTranslator(tree).translate()] + texts + \
+            [translation_state_default(tree), to_increment_commands_text(tree), vm_init_text(tree), '']
+    return '\n\n'.join(parts)
